@@ -66,6 +66,10 @@ CLI_POOL = {
     'nonlocal_comprehension': 'def outer():\n    total = 0\n    items = [1, 2, 3]\n    def add(k):\n        nonlocal total\n        total += k\n        return total\n    sums = [add(i) for i in items]\n    sq = {i: total + i for i in items}\n    return sums, sq, total\nr = outer()\nprint(r)\n',
     'class_features': "class Meta(type):\n    def __new__(m, n, b, ns, **kw):\n        c = super().__new__(m, n, b, ns)\n        c.kw = kw\n        return c\nclass A(metaclass=Meta, flag=1):\n    x = 1\n    y = x + 1\n    def m(self):\n        return self.y\n    @staticmethod\n    def s():\n        return 's'\n    @classmethod\n    def c(cls):\n        return cls.x\n    @property\n    def p(self):\n        return self.x * 10\nclass B(A):\n    def m(self):\n        return super().m() + 1\no = B()\nr = (o.m(), B.s(), B.c(), o.p, A.kw, B.__mro__[1].__name__)\nprint(r)\n",
     'globals_in_functions': 'counter = 0\nnames = []\ndef bump(k):\n    global counter\n    counter += k\n    names.append(counter)\n    return counter\ndef shadow():\n    counter = 100\n    return counter\nr = [bump(1), bump(2), shadow(), counter]\nprint(r, names)\n',
+    'backslashes': "p = 'C:\\\\new\\\\table'\nr = r'\\bword\\b'\nq = f'{p}\\\\x'\nu = 'a\\\\'\nprint(p, r, q, u, len(p), len(r))\n",
+    'sole_continue_return': "def f(xs):\n    out = []\n    for x in xs:\n        if x < 0:\n            continue\n        else:\n            out.append(x)\n        if x > 5:\n            return\n        else:\n            out.append(-x)\n        out.append('t')\n    return out\ndef g(v):\n    if v:\n        return\n    else:\n        v = 'e'\n    return v\ndef loop():\n    acc = []\n    for k in range(4):\n        if k == 1:\n            continue\n        else:\n            acc.append(k)\n    return acc\nacc = loop()\nres = (f([1, -1, 2]), f([9, 1]), g(0), g(1), acc)\nprint(res)\n",
+    'branch_tail_interrupt': "def h(xs):\n    out = []\n    for x in xs:\n        if x % 2:\n            out.append('odd')\n            continue\n        out.append(x)\n        if x > 3:\n            out.append('big')\n            return out\n        out.append('small')\n    out.append('end')\n    return out\ndef w(n):\n    r = []\n    while n:\n        n -= 1\n        if n == 2:\n            r.append('two')\n            continue\n        r.append(n)\n    return r\nprint(h([1, 2, 3]), h([2, 4, 6]), w(4))\n",
+    'same_name_nested_comp': 'def tri(limit, n):\n    def inner():\n        return n\n    rows = [[n for n in range(n)] for n in range(limit) if n % 2 == 0]\n    return rows, inner()\nclass K:\n    n = 3\n    m = [[n for n in range(n)] for n in range(4) if n]\nprint(tri(5, 7), K.m, K.n)\n',
     "ellipsis_tail": "x = 1\nif x:\n    pass\nelse:\n    ...\n",
     "mentions_paths": "names = ['out.txt', 'in.py', '-o', '-Cunparser=oneliner', 'r\u00e9sultat.txt']\nprint(names, __name__ == '__main__')\n",
     "print_alias": "p = print\nshow = lambda *a: p('>', *a)\nshow('x', 1)\np(len('abc'))\n",
